@@ -230,8 +230,16 @@ impl FileHasher<'_> {
         transform: Option<Transform>,
         log: &dyn Log,
     ) -> Result<FileHasher<'_>, Error> {
-        let transform_command_str = transform.as_ref().map(|t| t.command_str.as_str());
-        let cache = HashCache::open_default(transform_command_str, algorithm)?;
+        // The same command yields different data depending on where its output is read from
+        // (standard output vs. the file modified in place), so both make up the cache identity.
+        let transform_id = transform.as_ref().map(|t| {
+            if t.in_place {
+                format!("{} --in-place", t.command_str)
+            } else {
+                t.command_str.clone()
+            }
+        });
+        let cache = HashCache::open_default(transform_id.as_deref(), algorithm)?;
         Ok(FileHasher {
             algorithm,
             buf_len: 65536,
